@@ -55,8 +55,21 @@ pub struct LinStats {
 
 /// Per-key linearizability of the whole recorded history (C01, C08, C13, and the safety half of
 /// C07), including the state observed at quiescence.
-pub fn linearizability(p: &Program, r: &RunResult, stats: &mut LinStats) -> Vec<Violation> {
+#[derive(Clone, Copy, PartialEq, Eq, Debug)]
+pub enum Flavour {
+    /// updates + point reads (get / contains_key / get_key_value): what C01 speaks about
+    Point,
+    /// updates + what iterators (and retain's internal iteration) yielded: what C07 speaks about.
+    /// The two are judged separately because no property demands ONE order that explains both:
+    /// a tree-bin insert publishes its node on the traversal list (seen by iterators) a few
+    /// stores before it links it into the search tree (seen by lookups), exactly like the Java
+    /// original; each view is consistent on its own.
+    Iter,
+}
+
+pub fn linearizability(p: &Program, r: &RunResult, stats: &mut LinStats, flavour: Flavour) -> Vec<Violation> {
     let mut out = Vec::new();
+    let point = flavour == Flavour::Point;
     let set = p.cfg.set;
     let v2k = vid_to_key(p);
     let mut per_key: BTreeMap<u32, Vec<KOp>> = BTreeMap::new();
@@ -85,6 +98,7 @@ pub fn linearizability(p: &Program, r: &RunResult, stats: &mut LinStats) -> Vec<
             continue;
         }
         match (&h.op, &h.res) {
+            (Op::Get(_), _) | (Op::Contains(_), _) | (Op::GetKV(_), _) if !point => {}
             (Op::Get(k), Res::Opt(x)) => push(*k, KKind::Get(*x), h.inv, h.ret, false),
             (Op::Get(k), Res::KV(x)) | (Op::GetKV(k), Res::KV(x)) if set => push(*k, KKind::SetGet(x.map(|y| y.0)), h.inv, h.ret, false),
             (Op::Contains(k), Res::Bool(b)) => push(*k, KKind::Contains(*b), h.inv, h.ret, false),
@@ -119,13 +133,15 @@ pub fn linearizability(p: &Program, r: &RunResult, stats: &mut LinStats) -> Vec<
                 let eff_out = if *calls == 0 { None } else { outv };
                 push(*k, KKind::Compute { calls: *calls, saw: *saw, out: eff_out, ret: *ret }, h.inv, h.ret, false)
             }
-            (Op::Retain(_), Res::Retain(log)) | (Op::RetainForce(_), Res::Retain(log)) => {
+            (Op::Retain(_), Res::Retain(log)) | (Op::RetainForce(_), Res::Retain(log)) | (Op::Retain(_), Res::RetainPanic(log, _)) | (Op::RetainForce(_), Res::RetainPanic(log, _)) => {
                 let force = matches!(h.op, Op::RetainForce(_));
                 for (i, rec) in log.iter().enumerate() {
                     if rec.k == u32::MAX - 1 {
                         continue;
                     }
-                    if set {
+                    if point {
+                        // what retain's internal iterator saw belongs to the iterator view
+                    } else if set {
                         push(rec.k, KKind::ObserveKey(rec.kinst), h.inv, rec.clock, false);
                     } else {
                         push(rec.k, KKind::Observe(rec.vid), h.inv, rec.clock, false);
@@ -161,6 +177,9 @@ pub fn linearizability(p: &Program, r: &RunResult, stats: &mut LinStats) -> Vec<
             (Op::IterAll(_), Res::Items { items, .. }) | (Op::IterNext(_), Res::Items { items, .. }) => {
                 let start = if matches!(h.op, Op::IterAll(_)) { h.inv } else { *iter_open.get(&h.thread).unwrap_or(&h.inv) };
                 for it in items {
+                    if point {
+                        break;
+                    }
                     if it.k == u32::MAX - 1 || it.vid == u32::MAX - 1 {
                         continue; // invalid reference, reported by the executor
                     }
@@ -233,7 +252,7 @@ pub fn linearizability(p: &Program, r: &RunResult, stats: &mut LinStats) -> Vec<
 pub fn basic(r: &RunResult, injected_panic: bool) -> Vec<Violation> {
     let mut out = Vec::new();
     for h in &r.history {
-        if let Res::Panic(m) = &h.res {
+        if let Res::Panic(m) | Res::RetainPanic(_, m) = &h.res {
             if injected_panic && m.starts_with("injected callback panic") {
                 continue;
             }
@@ -259,7 +278,7 @@ pub fn verdicts(r: &RunResult) -> Vec<Violation> {
         Some(Verdict::Deadlock { states }) => vec![v("deadlock", format!("no thread can run: {}", states.join(" ")))],
         Some(Verdict::Livelock { clock, states }) => vec![v("livelock", format!("operations did not complete within the fair-scheduling bound (clock {}): {}", clock, states.join(" ")))],
         Some(Verdict::ForbiddenBlock { thread, what, clock }) => vec![v("reader-blocked", format!("read-only thread {} reached a {} seam at clock {}", thread, what, clock))],
-        Some(Verdict::OwnStepBound { thread, steps }) => vec![v("reader-unbounded", format!("thread {} exceeded its own-step bound ({} steps)", thread, steps))],
+        Some(Verdict::OwnStepBound { thread, steps }) => vec![v("reader-unbounded", format!("an operation of thread {} did not finish within its bound of own steps ({} steps so far)", thread, steps))],
     }
 }
 
@@ -408,6 +427,394 @@ pub fn trees(r: &RunResult) -> Vec<Violation> {
         for e in &rep.tree_errors {
             out.push(v("tree-invariant", e.clone()));
         }
+    }
+    out
+}
+
+fn mutates(op: &Op) -> bool {
+    matches!(
+        op,
+        Op::Insert(..) | Op::TryInsert(..) | Op::Remove(..) | Op::RemoveEntry(..) | Op::Compute(..) | Op::Extend(..) | Op::Retain(..) | Op::RetainForce(..) | Op::Clear
+    )
+}
+
+pub struct IterStats {
+    pub iterations: usize,
+    pub complete: usize,
+    pub stable_keys_checked: usize,
+    pub overlapped_by_resize: usize,
+    pub overlapped_by_writes: usize,
+}
+
+/// C07: weak consistency of iterators. Safety (nothing yielded that was never there) is part of
+/// the linearizability check (`Observe`); this adds completeness: a key that is present and
+/// untouched for the whole iteration is yielded exactly once; an absent untouched key never.
+pub fn iterators(p: &Program, r: &RunResult, st: &mut IterStats) -> Vec<Violation> {
+    let mut out = Vec::new();
+    let set = p.cfg.set;
+    let v2k = vid_to_key(p);
+    let uni = universe(p);
+    // collect iterations: (thread, t0, t1, complete, items)
+    struct It {
+        thread: u8,
+        t0: u64,
+        t1: u64,
+        complete: bool,
+        keys: Vec<u32>,
+        keys_known: bool,
+    }
+    let mut its: Vec<It> = Vec::new();
+    let mut open: BTreeMap<u8, It> = BTreeMap::new();
+    for h in &r.history {
+        match (&h.op, &h.res) {
+            (Op::IterAll(_), Res::Items { items, done }) => {
+                let mut keys = Vec::new();
+                let mut known = true;
+                for it in items {
+                    if it.k != NONE {
+                        keys.push(it.k);
+                    } else if let Some(&k) = v2k.get(&it.vid) {
+                        keys.push(k);
+                    } else {
+                        known = false;
+                    }
+                }
+                its.push(It { thread: h.thread, t0: h.inv, t1: h.ret, complete: *done, keys, keys_known: known });
+            }
+            (Op::IterOpen(_), Res::Unit) => {
+                if let Some(prev) = open.remove(&h.thread) {
+                    its.push(prev);
+                }
+                open.insert(h.thread, It { thread: h.thread, t0: h.inv, t1: h.ret, complete: false, keys: vec![], keys_known: true });
+            }
+            (Op::IterNext(_), Res::Items { items, done }) => {
+                if let Some(cur) = open.get_mut(&h.thread) {
+                    if cur.complete {
+                        continue;
+                    }
+                    for it in items {
+                        if it.k != NONE {
+                            cur.keys.push(it.k);
+                        } else if let Some(&k) = v2k.get(&it.vid) {
+                            cur.keys.push(k);
+                        } else {
+                            cur.keys_known = false;
+                        }
+                    }
+                    cur.t1 = h.ret;
+                    if *done {
+                        cur.complete = true;
+                    }
+                }
+            }
+            (Op::IterClose, _) | (Op::Unpin, _) | (Op::Refresh, _) => {
+                if let Some(prev) = open.remove(&h.thread) {
+                    its.push(prev);
+                }
+            }
+            _ => {}
+        }
+    }
+    its.extend(open.into_values());
+    let init: BTreeMap<u32, St> = r.initial.iter().cloned().collect();
+    for it in &its {
+        st.iterations += 1;
+        if !it.complete || !it.keys_known {
+            continue;
+        }
+        st.complete += 1;
+        if r.outcome.events.iter().any(|e| matches!(e.ev, Ev::BinMigrated | Ev::Published) && e.clock >= it.t0 && e.clock <= it.t1) {
+            st.overlapped_by_resize += 1;
+        }
+        // operations whose effect is not confined to one key make every key unstable if they overlap
+        let global_overlap = r.history.iter().any(|h| matches!(h.op, Op::Retain(..) | Op::RetainForce(..) | Op::Clear) && h.thread != it.thread && h.inv <= it.t1 && h.ret >= it.t0);
+        if r.history.iter().any(|h| mutates(&h.op) && h.thread != it.thread && h.inv <= it.t1 && h.ret >= it.t0) {
+            st.overlapped_by_writes += 1;
+        }
+        if global_overlap {
+            continue;
+        }
+        for &k in &uni {
+            // every mutating operation on k must lie entirely before t0 or entirely after t1
+            let mut before: Vec<KOp> = Vec::new();
+            let mut stable = true;
+            for h in &r.history {
+                if matches!(h.res, Res::Panic(_)) {
+                    continue;
+                }
+                let touches = match &h.op {
+                    Op::Extend(kv) => kv.iter().any(|x| x.0 == k),
+                    Op::Retain(..) | Op::RetainForce(..) | Op::Clear => true,
+                    o => o.key() == Some(k),
+                };
+                if !touches || !mutates(&h.op) {
+                    continue;
+                }
+                if h.ret < it.t0 {
+                    // reuse the linearizability vocabulary for the prefix
+                    let kind = match (&h.op, &h.res) {
+                        (Op::Insert(_, _), Res::Bool(b)) | (Op::TryInsert(_, _), Res::Bool(b)) => KKind::SetInsert(h.new_kinst, *b),
+                        (Op::Insert(_, vid), Res::Opt(old)) => KKind::Insert(h.new_kinst, *vid, *old),
+                        (Op::TryInsert(_, vid), Res::TryOk) => KKind::TryInsert(h.new_kinst, *vid, Ok(())),
+                        (Op::TryInsert(_, vid), Res::TryErr { cur, .. }) => KKind::TryInsert(h.new_kinst, *vid, Err(*cur)),
+                        (Op::Remove(_), Res::Bool(b)) | (Op::Compute(..), Res::Bool(b)) => KKind::SetRemove(*b),
+                        (Op::Remove(_), Res::Opt(x)) => KKind::Remove(*x),
+                        (Op::RemoveEntry(_), Res::KV(x)) if set => KKind::SetRemove(x.is_some()),
+                        (Op::RemoveEntry(_), Res::KV(x)) => KKind::RemoveEntry(*x),
+                        (Op::Compute(_, cf, vid), Res::Compute { calls, saw, ret, .. }) => KKind::Compute {
+                            calls: *calls,
+                            saw: *saw,
+                            out: if *calls == 0 || *cf == CFn::Remove { None } else { Some(*vid) },
+                            ret: *ret,
+                        },
+                        (Op::Extend(kv), _) => {
+                            let vid = kv.iter().rev().find(|x| x.0 == k).map(|x| x.1).unwrap_or(0);
+                            KKind::BlindInsert(ANY, if set { 0 } else { vid })
+                        }
+                        _ => {
+                            // retain / clear before t0: effect on this key not reconstructed here
+                            stable = false;
+                            break;
+                        }
+                    };
+                    before.push(KOp { inv: h.inv, ret: h.ret, optional: false, kind, thread: h.thread, idx: h.idx });
+                } else if h.inv > it.t1 {
+                    // after the iteration: irrelevant
+                } else {
+                    stable = false;
+                    break;
+                }
+            }
+            if !stable {
+                continue;
+            }
+            let i0 = init.get(&k).cloned().unwrap_or(None);
+            let Some(states) = lin::possible_states(i0, &before) else { continue };
+            let all_present = states.iter().all(|s| s.is_some());
+            let all_absent = states.iter().all(|s| s.is_none());
+            let count = it.keys.iter().filter(|&&x| x == k).count();
+            st.stable_keys_checked += 1;
+            if all_present && count != 1 {
+                out.push(v(
+                    if count == 0 { "iterator-missed-key" } else { "iterator-duplicate-key" },
+                    format!("thread {}'s iteration over clocks [{}..{}] yielded key {} {} times although the key was present and untouched for the whole iteration (yielded keys: {:?})", it.thread, it.t0, it.t1, k, count, it.keys),
+                ));
+            } else if all_absent && count != 0 {
+                out.push(v("iterator-phantom-key", format!("thread {}'s iteration over clocks [{}..{}] yielded key {} which was absent and untouched for the whole iteration", it.thread, it.t0, it.t1, k)));
+            }
+        }
+    }
+    out
+}
+
+/// C08 closed form: a key that is only ever written by increment-computes ends with n = number
+/// of computes whose function ran.
+pub fn counters(p: &Program, r: &RunResult, checked: &mut usize) -> Vec<Violation> {
+    let mut out = Vec::new();
+    if p.cfg.set {
+        return out;
+    }
+    for &k in &universe(p) {
+        let mut only_inc = true;
+        let mut incs = 0u64;
+        for h in &r.history {
+            let touches = match &h.op {
+                Op::Extend(kv) => kv.iter().any(|x| x.0 == k),
+                Op::Retain(..) | Op::RetainForce(..) | Op::Clear => true,
+                o => o.key() == Some(k),
+            };
+            if !touches || !mutates(&h.op) {
+                continue;
+            }
+            match (&h.op, &h.res) {
+                (Op::Compute(_, CFn::Inc, _), Res::Compute { calls, .. }) => incs += *calls as u64,
+                _ => only_inc = false,
+            }
+        }
+        if !only_inc {
+            continue;
+        }
+        let was_present = r.initial.iter().any(|(kk, s)| *kk == k && s.is_some());
+        if !was_present {
+            continue;
+        }
+        *checked += 1;
+        match r.quiescent.lookups.iter().find(|x| x.0 == k) {
+            Some((_, Some((_, _, n)))) => {
+                if *n != incs {
+                    out.push(v("lost-update", format!("counter key {}: {} increment functions ran but the final count is {}", k, incs, n)));
+                }
+            }
+            Some((_, None)) => out.push(v("lost-update", format!("counter key {} vanished although it was only ever incremented", k))),
+            None => {}
+        }
+    }
+    out
+}
+
+#[derive(Default)]
+pub struct ResizeStats {
+    pub generations: usize,
+    pub multi_helper_generations: usize,
+    pub max_helpers: usize,
+    pub overlapping_second_threshold: usize,
+}
+
+/// C10: the resize protocol judged from its site events and the quiescent structure.
+pub fn resizes(r: &RunResult, rs: &mut ResizeStats) -> Vec<Violation> {
+    let mut out = Vec::new();
+    struct Gen {
+        started: Vec<u64>,
+        migrated: BTreeMap<usize, Vec<u64>>,
+        published: Vec<u64>,
+        helpers: BTreeMap<u8, u32>,
+    }
+    let mut gens: BTreeMap<usize, Gen> = BTreeMap::new();
+    for e in &r.outcome.events {
+        let g = || Gen { started: vec![], migrated: BTreeMap::new(), published: vec![], helpers: BTreeMap::new() };
+        match e.ev {
+            Ev::ResizeStarted => gens.entry(e.a).or_insert_with(g).started.push(e.clock),
+            Ev::BinMigrated => {
+                let ge = gens.entry(e.a).or_insert_with(g);
+                ge.migrated.entry(e.b).or_default().push(e.clock);
+                *ge.helpers.entry(e.thread).or_insert(0) += 1;
+            }
+            Ev::Published => gens.entry(e.a).or_insert_with(g).published.push(e.clock),
+            _ => {}
+        }
+    }
+    let mut prev_pub: Option<(usize, u64)> = None;
+    for (n, g) in &gens {
+        rs.generations += 1;
+        rs.max_helpers = rs.max_helpers.max(g.helpers.len());
+        if g.helpers.len() > 1 {
+            rs.multi_helper_generations += 1;
+        }
+        if g.started.len() != 1 {
+            out.push(v("resize-started-twice", format!("resize of the {}-bin table was started {} times (clocks {:?})", n, g.started.len(), g.started)));
+        }
+        for i in 0..*n {
+            match g.migrated.get(&i).map(|x| x.len()).unwrap_or(0) {
+                1 => {}
+                0 => out.push(v("bin-not-migrated", format!("resize of the {}-bin table never migrated bin {}", n, i))),
+                c => out.push(v("bin-migrated-twice", format!("resize of the {}-bin table migrated bin {} {} times (clocks {:?})", n, i, c, g.migrated[&i]))),
+            }
+        }
+        for i in g.migrated.keys() {
+            if *i >= *n {
+                out.push(v("bin-out-of-range", format!("resize of the {}-bin table migrated bin index {}", n, i)));
+            }
+        }
+        match g.published.len() {
+            1 => {
+                let pc = g.published[0];
+                if let Some(last) = g.migrated.values().flat_map(|x| x.iter()).max() {
+                    if *last > pc {
+                        out.push(v("published-before-complete", format!("the table replacing the {}-bin table was published at clock {} but a bin was migrated at clock {}", n, pc, last)));
+                    }
+                }
+                if let Some(s) = g.started.first() {
+                    if let Some((pn, ppc)) = prev_pub {
+                        if *s < ppc {
+                            out.push(v("generations-overlap", format!("resize of the {}-bin table started at clock {} before the resize of the {}-bin table was published at clock {}", n, s, pn, ppc)));
+                        }
+                    }
+                }
+                prev_pub = Some((*n, pc));
+            }
+            0 => out.push(v("resize-not-published", format!("resize of the {}-bin table was started but its successor was never published", n))),
+            c => out.push(v("published-twice", format!("the successor of the {}-bin table was published {} times (clocks {:?})", n, c, g.published))),
+        }
+    }
+    // doubling chain: n, 2n, 4n, ... and the final table is the last successor
+    let ns: Vec<usize> = gens.keys().copied().collect();
+    for w in ns.windows(2) {
+        if w[1] != w[0] * 2 {
+            out.push(v("not-doubling", format!("table lengths resized: {:?} (each generation must double the previous)", ns)));
+            break;
+        }
+    }
+    if let (Some(last), Some(rep)) = (ns.last(), r.quiescent.inspect.as_ref()) {
+        if gens[last].published.len() == 1 && rep.table_len != last * 2 {
+            out.push(v("wrong-new-length", format!("after resizing the {}-bin table the current table has {} bins", last, rep.table_len)));
+        }
+    }
+    if let (Some(first), true) = (ns.first(), r.initial_table_len > 0) {
+        if *first != r.initial_table_len && !r.outcome.events.iter().any(|e| e.ev == Ev::TableInit) {
+            out.push(v("wrong-old-length", format!("first resize was of a {}-bin table but the table had {} bins", first, r.initial_table_len)));
+        }
+    }
+    out
+}
+
+/// C06 lookup cost: key comparisons used by get/contains_key at quiescence.
+pub fn lookup_cost(p: &Program, r: &RunResult, checked: &mut usize, max_seen: &mut u64) -> Vec<Violation> {
+    let mut out = Vec::new();
+    let Some(rep) = &r.quiescent.inspect else { return out };
+    if rep.table_len == 0 {
+        return out;
+    }
+    for (k, present, cmps) in &r.quiescent.lookup_cost {
+        let bin = (p.cfg.hash.hash(*k) as usize) & (rep.table_len - 1);
+        let Some(&(kind, size)) = rep.bins.get(bin) else { continue };
+        if kind != 2 || size == 0 {
+            continue;
+        }
+        *checked += 1;
+        *max_seen = (*max_seen).max(*cmps);
+        let bound = (4.0 * ((size + 1) as f64).log2()).ceil() as u64 + 2;
+        if *cmps > bound {
+            out.push(v(
+                "lookup-too-expensive",
+                format!("looking up {} key {} in a tree bin of {} entries used {} key comparisons (bound 4*log2(n+1)+2 = {})", if *present { "present" } else { "absent" }, k, size, cmps, bound),
+            ));
+        }
+    }
+    out
+}
+
+/// C14 (concurrent half): removals never make the table grow; lengths only ever double.
+pub fn no_growth_on_removal(p: &Program, r: &RunResult) -> Vec<Violation> {
+    let mut out = Vec::new();
+    let removal_only = p.threads.iter().flatten().all(|o| {
+        matches!(
+            o,
+            Op::Remove(..) | Op::RemoveEntry(..) | Op::Compute(_, CFn::Remove, _) | Op::Retain(..) | Op::RetainForce(..) | Op::Clear | Op::Get(..) | Op::Contains(..) | Op::GetKV(..) | Op::Len | Op::IterAll(..) | Op::IterOpen(..) | Op::IterNext(..) | Op::IterClose | Op::Pin | Op::Unpin | Op::Refresh | Op::Flush | Op::Recheck
+        )
+    });
+    if removal_only {
+        for e in &r.outcome.events {
+            if matches!(e.ev, Ev::ResizeStarted | Ev::Published) {
+                out.push(v(
+                    "growth-on-removal",
+                    format!("the table of {} bins was resized at clock {} by thread {} although the program only removes and reads", e.a, e.clock, e.thread),
+                ));
+                break;
+            }
+        }
+        if let Some(rep) = &r.quiescent.inspect {
+            if r.initial_table_len > 0 && rep.table_len != r.initial_table_len {
+                out.push(v("growth-on-removal", format!("table length changed from {} to {} in a program that only removes and reads", r.initial_table_len, rep.table_len)));
+            }
+        }
+    }
+    out
+}
+
+/// C18: the injected panic reaches the caller of exactly the operation whose callback panicked.
+pub fn panic_propagation(r: &RunResult, opts: &ExecOpts) -> Vec<Violation> {
+    let mut out = Vec::new();
+    let Some(i) = opts.panic_at else { return out };
+    if r.callbacks < i {
+        return out; // the schedule of this run never reached the i-th callback
+    }
+    let hit: Vec<&OpRec> = r
+        .history
+        .iter()
+        .filter(|h| matches!(&h.res, Res::Panic(m) | Res::RetainPanic(_, m) if m.starts_with("injected callback panic")))
+        .collect();
+    if hit.len() != 1 {
+        out.push(v("panic-not-propagated", format!("callback #{} panicked but {} operations reported the panic to their caller", i, hit.len())));
     }
     out
 }
